@@ -1052,6 +1052,9 @@ def unload_from_model(
             if value.const_value is None:
                 # Filter out the uninitialized initializer values
                 continue
+            if value.const_value.dtype == _enums.DataType.STRING:
+                # String tensors cannot be stored as external data: keep them in the model
+                continue
             if value.const_value.nbytes > size_threshold_bytes:
                 initializers_to_become_external.append(value)
             elif isinstance(value.const_value, _core.ExternalTensor):
